@@ -108,6 +108,14 @@ func (fv *FuncVerifier) call(st *State, instr ssa.Instruction, cc *ssa.CallCommo
 			}
 			return fv.applyContract(st, c, name, pn, append([]Value{recv}, args...), sig, nil, pos), true
 		}
+		if pp := fv.db.purePrefixOf(name); pp != "" {
+			fv.enc.assumedUsed["methods of interfaces of "+pp+" do not modify the tracked state (assumed pure): used "+shortName(name)] = true
+			r := fv.freshResult(st, cc.Method.Name(), sig)
+			if len(r.L) > 0 {
+				st.assumeRefs(r)
+			}
+			return r, true
+		}
 		fv.enc.havocAllCalls["invoke "+name] = true
 		st.havocAll()
 		return fv.freshResult(st, cc.Method.Name(), sig), true
@@ -139,6 +147,14 @@ func (fv *FuncVerifier) call(st *State, instr ssa.Instruction, cc *ssa.CallCommo
 		c = fv.db.Funcs[callee.Origin().String()]
 	}
 	if c == nil {
+		if pp := fv.db.purePrefixOf(name); pp != "" {
+			fv.enc.assumedUsed["functions of "+pp+" do not modify the tracked state (assumed pure): used "+shortName(name)] = true
+			r := fv.freshResult(st, callee.Name(), sig)
+			if len(r.L) > 0 {
+				st.assumeRefs(r)
+			}
+			return r, true
+		}
 		fv.enc.havocAllCalls[name] = true
 		st.havocAll()
 		r := fv.freshResult(st, callee.Name(), sig)
@@ -218,6 +234,23 @@ func (fv *FuncVerifier) applyContract(st *State, c *FuncContract, name string, p
 		fv.addOb(st, "pre", fmt.Sprintf("pre:%s#%d.%d", sn, k, i), g, r.Src, pos)
 		st.assume(g)
 	}
+	if c.NoLocks {
+		// the callee must be entered with none of the tracked locks held
+		var cs []Term
+		for _, n := range sortedKeys(st.heap) {
+			if strings.HasPrefix(n, "LK_") {
+				a := st.heap[n]
+				cs = append(cs, Forall([]string{"x!l"}, Eq(Select(a, Term{"x!l", SInt}), I(0))))
+			}
+		}
+		if !fv.fc.NoLocks {
+			cs = append(cs, FalseT) // locks possibly held at our own entry are unknown
+		}
+		fv.addOb(st, "pre", fmt.Sprintf("pre:%s#%d.nolocks", sn, k), And(cs...), "callee must be entered with no tracked lock held", pos)
+	}
+	if fv.ccMode == ccPreOnly {
+		return Value{}
+	}
 	old := st.clone()
 	// havoc
 	if !c.HasModifies {
@@ -262,6 +295,9 @@ func (fv *FuncVerifier) applyContract(st *State, c *FuncContract, name string, p
 		}
 	}
 	penv := &Env{fv: fv, enc: fv.enc, st: st, old: old, vars: post, oldVars: vars, pkg: pkg, nb: &fv.enc.nfresh}
+	if fv.ccMode == ccHavocOnly {
+		return res
+	}
 	for _, e := range c.Ensures {
 		st.assume(fv.safeEvalBool(penv, e.E, "post of "+sn))
 	}
@@ -366,6 +402,11 @@ func (fv *FuncVerifier) havocClause(st *State, env *Env, old *State, e SExpr, ci
 		case "locks":
 			st.havocPrefix("LK_")
 			return
+		case "mapcontent":
+			mv := oenv.eval(x.Args[0])
+			a := st.heapArr("M_content", SArr)
+			st.setHeap("M_content", Store(a, mv.L[0], fv.enc.fresh("mapver", SInt)))
+			return
 		}
 	case *SIdent:
 		// region name or captured variable
@@ -373,7 +414,9 @@ func (fv *FuncVerifier) havocClause(st *State, env *Env, old *State, e SExpr, ci
 			for _, f := range fields {
 				st.havocPrefix(fv.prefixOfTypeField(env, f))
 			}
-			st.havocPrefix("M_")
+			if regionHasMaps(env, fields) {
+				st.havocPrefix("M_")
+			}
 			return
 		}
 		if ci != nil && ci.clo != nil {
@@ -506,6 +549,8 @@ func modClausePrefixes(enc *Enc, fn *ssa.Function, c *FuncContract, e SExpr) ([]
 			return []string{"GH_" + id.Name}, true
 		case "locks":
 			return []string{"LK_"}, true
+		case "mapcontent":
+			return []string{"M_content"}, true
 		}
 	case *SIdent:
 		if fields, ok := enc.db.Regions[x.Name]; ok {
@@ -516,7 +561,9 @@ func modClausePrefixes(enc *Enc, fn *ssa.Function, c *FuncContract, e SExpr) ([]
 				t := env.resolveType(tf[:i])
 				out = append(out, "H_"+typeKey(t)+"."+tf[i+1:])
 			}
-			out = append(out, "M_")
+			if regionHasMaps(env, fields) {
+				out = append(out, "M_")
+			}
 			return out, true
 		}
 		// captured variable: a cell of the caller; nothing in the heap
